@@ -274,6 +274,13 @@ impl<'a, N: Normalizer> Html5Serializer<'a, N> {
             }
             Attribute(name_id, value) => {
                 let fullname = self.fullname_serializer.attribute_fullname(*name_id)?;
+                if fullname == "xmlns" {
+                    // it would be read back as a namespace declaration
+                    return Err(Error::InvalidOperation(
+                        "Cannot serialize an attribute without namespace that is named xmlns"
+                            .to_string(),
+                    ));
+                }
                 let namespace = self.xot.namespace_for_name(*name_id);
                 if self.html5_elements.is_html_namespace(self.xot, namespace) {
                     let local_name = self.xot.local_name_str(*name_id);
